@@ -239,8 +239,10 @@ func verifyOne(code []ds.VerifOp, path string) []BCIssue {
 			push(1)
 		case "item.set":
 			pop(3)
+			push(1)
 		case "attr.set":
 			pop(2)
+			push(1)
 		case "attr.get":
 			pop(1)
 			push(1)
@@ -249,6 +251,7 @@ func verifyOne(code []ds.VerifOp, path string) []BCIssue {
 			push(1)
 		case "slice.set":
 			pop(5)
+			push(1)
 		case "add", "sub", "mul", "div", "mod", "pow", "nullCoalescing", "comp.lt", "comp.le", "comp.eq", "comp.ne", "comp.ge", "comp.gt", "&", "|", "and":
 			pop(2)
 			push(1)
